@@ -273,21 +273,48 @@ fn c39_map_unknown_empty() {
     assert!(matches!(e, Some(t) if t.forward.is_none() && t.backward.is_none()), "empty map = unlimited");
 }
 
-/// Both directions, either order (the second value is a float or \"inf\").
+/// Float or string value (the integer kinds go through the same `visit_f64` and are covered by the
+/// one-entry harnesses; two full scalars per harness cost > 200 s).
+fn any_safe_fs() -> Val {
+    let f: f64 = kani::any();
+    let s: [u8; 3] = kani::any();
+    kani::assume(s[0] < 0x80 && s[1] < 0x80 && s[2] < 0x80);
+    let v = if kani::any() { Val::F(f) } else { Val::S(s) };
+    kani::assume(!val_unsafe(v) && !val_posinf(v));
+    v
+}
+
+/// `{ forward = a, backward = b }`.
 #[kani::proof]
 #[kani::unwind(10)]
-fn c39_map_two() {
-    let v = [any_safe_val(), any_safe_val()];
-    let r = if kani::any() { check_map([0, 1], v) } else { check_map([1, 0], v) };
+fn c39_map_two_fb() {
+    let v = [any_safe_fs(), any_safe_fs()];
+    let r = check_map([0, 1], v);
+    kani::cover!(matches!(r, Some(t) if t.forward.is_some() && t.backward.is_some()), "both limited");
+    kani::cover!(matches!(r, Some(t) if t.forward.is_none() && t.backward.is_some()), "forward unlimited, backward limited");
+}
+/// `{ backward = a, forward = b }`.
+#[kani::proof]
+#[kani::unwind(10)]
+fn c39_map_two_bf() {
+    let v = [any_safe_fs(), any_safe_fs()];
+    let r = check_map([1, 0], v);
     kani::cover!(matches!(r, Some(t) if t.forward.is_some() && t.backward.is_some()), "both limited");
 }
 
 /// Duplicate keys are rejected whatever the values.
 #[kani::proof]
 #[kani::unwind(10)]
-fn c39_map_dup() {
-    let v = [any_safe_val(), any_safe_val()];
-    let r = if kani::any() { check_map([0, 0], v) } else { check_map([1, 1], v) };
+fn c39_map_dup_forward() {
+    let v = [any_safe_fs(), any_safe_fs()];
+    let r = check_map([0, 0], v);
+    assert!(r.is_none(), "duplicate key accepted");
+}
+#[kani::proof]
+#[kani::unwind(10)]
+fn c39_map_dup_backward() {
+    let v = [any_safe_fs(), any_safe_fs()];
+    let r = check_map([1, 1], v);
     assert!(r.is_none(), "duplicate key accepted");
 }
 
@@ -297,7 +324,10 @@ fn c39_map_dup() {
 #[kani::proof]
 #[kani::unwind(10)]
 fn c39_map_kf_unvalidated_part() {
-    let v = any_val();
+    // only the two numeric kinds that reach `NtpDuration::from_seconds` unvalidated
+    let f: f64 = kani::any();
+    let i: i64 = kani::any();
+    let v = if kani::any() { Val::F(f) } else { Val::I(i) };
     kani::assume(val_unsafe(v));
     check_map([0], [v]);
 }
